@@ -352,15 +352,17 @@ Section Closed.
     before_schedule N V st = set_flags N V st true (last_upd st).
   Proof. reflexivity. Qed.
 
-  (* an event of a type the simulator does not dispatch on is logged and otherwise ignored *)
+  (* a queue entry that is none of the built-in events (a bare Event, a user-defined subclass): dispatch
+     is on its event_type LABEL — labelled "Recompute" (code 2) it requests a resolve like a RecomputeEvent,
+     with a label the simulator does not know it is logged and otherwise ignored *)
   Lemma process_other_eq (st : state) ts p c :
-    c <> 0 -> c <> 1 -> c <> 2 ->
+    c <> 0 -> c <> 1 ->
     process_event st (EOther ts p c) =
-    OkS (mkState (iter st) (resolve st) (last_upd st) (queue st) (occ st) (ev_hist st)
+    OkS (mkState (iter st) (if c =? 2 then true else resolve st) (last_upd st) (queue st) (occ st) (ev_hist st)
                  (hist st) (calls st) (occ_log st) (num st)).
   Proof.
-    intros H0 H1 H2. unfold SimSkel.process_event, Simulator_process_event. cbn [ev_session ev_code ev_ts].
-    apply Z.eqb_neq in H0, H1, H2. rewrite H0, H1, H2. reflexivity.
+    intros H0 H1. unfold SimSkel.process_event, Simulator_process_event. cbn [ev_session ev_code ev_ts].
+    apply Z.eqb_neq in H0, H1. rewrite H0, H1. destruct (c =? 2); reflexivity.
   Qed.
 
   Lemma sched_phase_eq (st : state) :
@@ -414,7 +416,7 @@ Definition valid_event (stations : list Z) (e : event) : Prop :=
   match e with
   | EPlugin ts x => ts = s_arrival x /\ In (s_station x) stations /\ 0 <= s_arrival x < s_departure x
   | ERecompute ts => 0 <= ts
-  | EOther ts _ c => 0 <= ts /\ c <> 0 /\ c <> 1 /\ c <> 2     (* bare Event / user-defined subclass *)
+  | EOther ts _ c => 0 <= ts /\ c <> 0 /\ c <> 1     (* bare Event / user-defined subclass, not labelled Plugin/Unplug *)
   | EUnplug _ _ => False            (* unplug events are generated by the simulator, not given *)
   end.
 
@@ -794,12 +796,12 @@ Section C01.
       + intros z Iz Cz. apply (i_occ2 _ _ _ I); auto.
       + intros ts0. pose proof (i_cons3 _ _ _ I ts0) as C. cnts. lia.
     - (* ---------------- any other event: logged, otherwise ignored ---------------- *)
-      simpl in Ge. pose proof (valid_in _ Ge) as (_ & C0 & C1 & C2).
-      rewrite (process_other_eq N V stations _ ts p c C0 C1 C2). cbn [log_event].
+      simpl in Ge. pose proof (valid_in _ Ge) as (_ & C0 & C1).
+      rewrite (process_other_eq N V stations _ ts p c C0 C1). cbn [log_event].
       eexists. split; [reflexivity|]. red_st.
       split.
       2:{ rewrite Hit. repeat split; auto. unfold resolving. cbn [ev_code].
-          apply Z.eqb_neq in C0, C1, C2. rewrite C0, C1, C2. discriminate. }
+          apply Z.eqb_neq in C0, C1. rewrite C0, C1. simpl. intro H. rewrite H. reflexivity. }
       constructor; red_st.
       + intros e' Ie'. apply (i_good_p _ _ _ I). right; auto.
       + intros u e' Ie'. apply in_app_or in Ie'. destruct Ie' as [Ie'|[Ie'|[]]].
